@@ -213,10 +213,26 @@ func lifeEpisode(work string, seed int64, f *fake) event {
 	report := func(d devT, slot uint32, power uint64) []byte {
 		return refenc.Report{ID: d.id, Slot: slot, Power: power}.Signed(d.key.Priv).Bytes()
 	}
-	now := glow.CurrentTimeslot()
-	off := s.VerifSnapshot(false).Offset
-	if int64(now)-int64(off) >= 4000 || now < off {
-		l.bad("C20:startup-left-clock-outside-catchup-range: now=%d offset=%d", now, off)
+	// The start-up catch-up leaves now-offset below 4000; when it is above 3200 the background loop rotates
+	// once more on its own (after a WattTime round trip). The episode begins when no rotation is due, and is
+	// not run at all on the few hours of a week in which one would become due while it runs.
+	var now, off uint32
+	settle := func() bool {
+		for i := 0; i < 600; i++ {
+			now, off = glow.CurrentTimeslot(), l.s.VerifSnapshot(false).Offset
+			if int64(now)-int64(off) <= 3200 {
+				return true
+			}
+			time.Sleep(50 * time.Millisecond)
+		}
+		return false
+	}
+	if !settle() {
+		return event{"result": "inconclusive", "why": fmt.Sprintf("the rotation due after start-up (now-offset=%d) did not happen within 30 s", int64(now)-int64(off))}
+	}
+	if int64(now)-int64(off) > 3190 || now < off {
+		s.Close()
+		return event{"result": "held", "scenario": "life", "skipped_rotation_imminent": 1}
 	}
 	slotOf := func(d devT, slot uint32) (glow.EquipmentReport, bool) {
 		rep, _, o, present := l.s.VerifSlot(d.id, int(int64(slot)-int64(off)))
@@ -475,7 +491,7 @@ func lifeEpisode(work string, seed int64, f *fake) event {
 	}
 	l.s = s
 	after := s.VerifSnapshot(true)
-	if after.Offset != before.Offset && int64(glow.CurrentTimeslot())-int64(before.Offset) < 4000 {
+	if after.Offset != before.Offset {
 		l.bad("C04:restart-changed-state:offset: %d -> %d", before.Offset, after.Offset)
 	}
 	if len(after.Equipment) != len(before.Equipment) || len(after.Bans) != len(before.Bans) || !after.Bans[X.id] {
